@@ -202,6 +202,29 @@ def oracle_history(case):
         g = gen_tab.parsed_tree(str(ser[0]))
         if g is None or gen_tab.canon(g) != gen_tab.canon(model_tree(tree, defs, "S")) or ser[1] != "Sensory-event":
             out.bad("series-shrink-differs", f"{text!r} -> {ser[0]!r}")
+        # the DataFrame form and the events-file object do the same, on their HED column and in place
+        import io
+        from hed.models.tabular_input import TabularInput
+        frame = pd.DataFrame({"other": ["x", "y"], "HED": [text, "Sensory-event"]})
+        tab = TabularInput(io.StringIO("onset\tHED\n1.0\t" + text + "\n2.0\tSensory-event\n"), name="t")
+        try:
+            for state, step in (("E", "expand"), ("S", "shrink"), ("E", "expand")):
+                if step == "expand":
+                    df_util.expand_defs(frame, sch, dd, ["HED"])
+                    tab.expand_defs(sch, dd)
+                else:
+                    df_util.shrink_defs(frame, sch, ["HED"])
+                    tab.shrink_defs(sch)
+                want = gen_tab.canon(model_tree(tree, defs, state))
+                for name, cell, other in (("dataframe", frame["HED"][0], frame["HED"][1]),
+                                          ("events-file", tab.dataframe["HED"][0], tab.dataframe["HED"][1])):
+                    g = gen_tab.parsed_tree(str(cell))
+                    if g is None or gen_tab.canon(g) != want or other != "Sensory-event":
+                        out.bad(f"{name}-{step}-differs", f"{text!r} -> {cell!r}")
+        except Exception as exc:  # noqa
+            from vlib.core import crash_signature
+            out.bad(crash_signature(exc, "table-form-raises") or f"table-form-raises:{type(exc).__name__}",
+                    f"{exc!r}: {text!r}")
     return out
 
 
@@ -283,6 +306,13 @@ def oracle_acceptance(case):
         all_issues += iss
     codes = [i["code"] for i in all_issues]
     key = case["name"].casefold()
+    # the same strings given to the constructor: same dictionary, and the reports are kept in .issues
+    built = DefinitionDict(list(case["strings"]), sch)
+    if sorted(built.defs) != sorted(dd.defs):
+        out.bad("constructor-accepts-differently", f"{case['strings']} -> {sorted(built.defs)} vs {sorted(dd.defs)}")
+    if sorted(i["code"] for i in built.issues) != sorted(codes):
+        out.bad("constructor-drops-the-reports", f"{case['strings']} -> .issues {[i['code'] for i in built.issues]} "
+                                                 f"expected {codes}")
     if case["fault"] == "none":
         if key not in dd.defs or codes:
             out.bad("valid-definition-rejected", f"{case['strings']} -> {codes}")
